@@ -589,6 +589,14 @@ func killRuns(w *vx.NDWriter, rng *rand.Rand, dir, bin string, kills int) error 
 			argv = append(argv, csvPath)
 			cmd := exec.Command(bin, argv...)
 			cmd.Env = append(os.Environ(), "TMPDIR="+dir)
+			if k%4 >= 2 {
+				// the temporary directory on another file system than the output (e.g. /tmp on disk, the output in memory):
+				// whatever is built there cannot be renamed into place
+				if other, terr := os.MkdirTemp("/var/tmp", "updogverif_tmp_"); terr == nil {
+					defer os.RemoveAll(other)
+					cmd.Env = append(os.Environ(), "TMPDIR="+other)
+				}
+			}
 			if err := cmd.Start(); err != nil {
 				return err
 			}
